@@ -38,9 +38,16 @@ def generate(seed, stratum, tier):
             'instrumented': rng.random() < 0.5, 'live_spy': False, 'live_trace': False,
             'sched': {'gran': 'line', 'policy': 'sticky', 's': 1.0}}
   kw = {'fx_rate': rng.choice([0.0, 0.2, 0.4]), 'fx_ops': ('post_fifo', 'post_lifo'), 'nstates': rng.randrange(2, 9)}
-  return cc.gen_chart_scenario(rng, combos=[('queued', 'closure'), ('queued', 'closure-spied'), ('queued', 'template')],
-                               spec_kw=kw, ops=('post_fifo', 'post_lifo', 'rtc', 'circuit', 'ev'), weights=(4, 3, 5, 1, 1),
-                               nops=(5, 40))
+  ops, weights = ('post_fifo', 'post_lifo', 'rtc', 'circuit', 'ev'), (4, 3, 5, 1, 1)
+  sibling = rng.random() < 0.3
+  if sibling:
+    # a second queued chart is alive and used in between: each chart's order is that of a deque driven by its own operations
+    ops, weights = ops + ('sib_post_fifo', 'sib_post_lifo', 'sib_rtc'), weights + (2, 1, 2)
+  sc = cc.gen_chart_scenario(rng, combos=[('queued', 'closure'), ('queued', 'closure-spied'), ('queued', 'template')],
+                             spec_kw=kw, ops=ops, weights=weights, nops=(5, 40))
+  if sibling:
+    sc['sibling'] = True
+  return sc
 
 
 shrink_candidates = cc.shrink_chart
